@@ -37,7 +37,7 @@ type poolprogScn struct{}
 func (poolprogScn) Name() string     { return "poolprog" }
 func (poolprogScn) Property() string { return "C18" }
 
-const numProgKinds = 8
+const numProgKinds = 11
 
 func (poolprogScn) Generate(g *simrt.Rng, tier string) any {
 	p := &PoolProgPlan{Env: genEnv(g, tier)}
@@ -205,6 +205,67 @@ func runProg(nonce uint32, pr PoolProg, yield func()) (out []byte) {
 		yield()
 		b, err := w.Build()
 		return res(b, err)
+	case 8: // a writer owned by the caller (not released automatically), reused for several messages through Reset
+		w := spec.NewWriter()
+		var all []byte
+		for i := 0; i <= pr.N%4; i++ {
+			w.Reset(buf)
+			m := w.Message()
+			m.Field(1).Int64(int64(pr.Arg) + int64(i))
+			yield()
+			m.Field(uint16(2 + i)).Bytes(data)
+			yield()
+			l := m.Field(40).List()
+			for k := 0; k <= i; k++ {
+				l.Int32(int32(pr.Arg ^ k))
+			}
+			if err := l.End(); err != nil {
+				return res(nil, err)
+			}
+			yield()
+			b, err := m.Build()
+			if err != nil {
+				return res(nil, err)
+			}
+			all = append(all, b...)
+			all = append(all, '|')
+			buf.Reset()
+			yield()
+		}
+		w.Free()
+		return all
+	case 9: // writer with its own buffer whose state is released when the root ends
+		w := spec.NewMessageWriter()
+		w.Field(1).Uint32(uint32(pr.Arg))
+		yield()
+		w1 := w.Field(2).Message()
+		w1.Field(1).Bytes(data)
+		yield()
+		if err := w1.End(); err != nil {
+			return res(nil, err)
+		}
+		yield()
+		b, err := w.Build()
+		return res(b, err)
+	case 10: // fails midway in other ways: a second root value / an element outside a list
+		w := spec.NewValueWriterBuffer(buf)
+		yield()
+		if pr.N%2 == 0 {
+			w.Int64(int64(pr.Arg))
+			yield()
+			w.Int64(int64(pr.Arg) + 1) // a second root value
+		} else {
+			m := w.Message()
+			m.Field(1).Bytes(data)
+			yield()
+			w.String("root again") // the root is still open
+		}
+		yield()
+		_, err := w.Build()
+		if err == nil {
+			return []byte("no error from a misused writer")
+		}
+		return []byte("error: " + err.Error())
 	}
 	return []byte("unknown program")
 }
